@@ -53,11 +53,11 @@ def std_trait_type(em, name, nn):
     (e.g. pointee `remove_reference<const int>::type`).  Standard semantics on parsed type terms (M-traits)."""
     m = re.match(r'^(remove_reference|remove_volatile|remove_const|remove_cv|add_pointer|remove_pointer|add_volatile|'
                  r'add_const|add_cv|remove_extent|remove_all_extents|make_unsigned|make_signed|decay|'
-                 r'add_lvalue_reference|add_rvalue_reference|conditional|enable_if|remove_cvref)<.*>::type$', nn)
-    if not m:
+                 r'add_lvalue_reference|add_rvalue_reference|conditional|enable_if|remove_cvref)(_t)?<.*>(::type)?$', nn)
+    if not m or (m.group(2) is None) == (m.group(3) is None):
         return None
     trait = m.group(1)
-    args = em._split_targs(name[:name.rindex('::')])
+    args = em._split_targs(name[:name.rindex('::')] if m.group(3) else name)
     t = T.parse(args[0]) if trait not in ('conditional', 'enable_if') else None
     em.lowerings['M-traits(std::%s)' % trait] += 1
 
@@ -97,6 +97,9 @@ def std_trait_type(em, name, nn):
         r = t if t[0] == 'ref' else ('ref', t)
     elif trait == 'conditional':
         c = args[0].strip()
+        mv = re.match(r'^(?:std::)?is_void_v<(.*)>$', c)
+        if mv:
+            c = 'true' if norm_name(mv.group(1)) == 'void' else 'false'
         if c not in ('true', 'false', '1', '0'):
             raise ExtractError('std::conditional with unevaluated condition %r' % c)
         r = T.parse(args[1] if c in ('true', '1') else args[2])
@@ -375,7 +378,15 @@ def indirect_call(em, n, callee_e, args):
 
 
 def member_expr(em, n, base, d):
-    """it->second on a map iterator"""
+    """it->second on a map iterator; .first/.second of a std::pair (modelled struct)"""
+    if n.get('name') in ('second', 'first') and d is None:
+        try:
+            bt = T.strip_quals(T.strip_ref(T.parse(qt(base))))
+        except T.TypeParseError:
+            bt = None
+        if bt is not None and bt[0] == 'n' and norm_name(bt[1]).startswith('pair<'):
+            em.lowerings['M-pair(member)'] += 1
+            return '((%s)%s%s)' % (em.E(base), '->' if n.get('isArrow') else '.', n['name'])
     if n.get('name') in ('second', 'first') and base.get('kind') == 'CXXOperatorCallExpr':
         ii = inner(base)
         if len(ii) == 2 and _is_mapit(em, ii[1]):
